@@ -112,6 +112,29 @@ func (f *frame) unop(x *ssa.UnOp, st State, reach string) State {
 	c := f.c
 	switch x.Op {
 	case token.MUL: // load
+		if sv, ok := f.s2a[x.X]; ok {
+			// *(*[N]T)(slice) with non-zero offset: copy N elements
+			at := x.Type().Underlying().(*types.Array)
+			sh := shapeOf(x.Type())
+			out := make(Val, len(sh))
+			for i := range sh {
+				el := sh[i].Elem
+				mem := "E|" + elemKey(at.Elem()) + "|" + el.Path
+				src := c.bind("s2a", arrSort(el.Sort), c.sel(c.heapGet(st.heap, mem, memSort(el.Sort, 2)), sv[0]))
+				arr := c.fresh("s2a", sh[i].Sort)
+				if at.Len() <= 64 {
+					for k := int64(0); k < at.Len(); k++ {
+						c.assume(reach, eq(sel(arr, num(k)), c.sel(src, addOff(sv[1], num(k)))))
+					}
+				} else {
+					q := c.qvar()
+					c.assume(reach, fmt.Sprintf("(forall ((%s Int)) (! (=> (and (<= 0 %s) (< %s %d)) (= (select %s %s) (select %s (+ %s %s)))) :pattern ((select %s %s))))", q, q, q, at.Len(), arr, q, src, sv[1], q, arr, q))
+				}
+				out[i] = arr
+			}
+			f.setVal(x, out)
+			return st
+		}
 		l := f.locOf(x.X)
 		if !f.isLocBase(x.X) {
 			f.guard(reach, neq(f.get(x.X)[0], "0"), "nil dereference (load)", x)
